@@ -4,7 +4,8 @@ from .common import generic_replay
 
 
 def run(tier):
-    return scans.scan_check("C19", ("R2D.", "RH.", "GRAM."), {"R2D", "RH", "FIN"}, {"Riemann2D": ("riemann2d", {"R2D", "RH", "FIN"})}, tier)
+    return scans.scan_check("C19", ("R2D.", "RH.", "GRAM."), {"R2D", "RH", "FIN"}, {"Riemann2D": ("riemann2d", {"R2D", "RH", "FIN"})}, tier,
+                            require_patterns=[("SCR", ""), ("RCS", ""), ("SCS", "")])     # a fan on either side, shocks on both
 
 
 def replay(path):
